@@ -510,3 +510,15 @@ package virtual
 //@   props C14
 //@   at call dyn#1 assert the-filter-runs-without-the-directory-lock: held(i.lock) == 0
 //@   at call dyn#2 assert the-filter-runs-without-the-directory-lock: held(i.lock) == 0
+
+// A read of an input file succeeds only when storage delivered every byte that
+// was asked for: a blob that is shorter than its digest says (truncated or
+// corrupted storage) is reported as an I/O error and never presented as file
+// contents (C17: the action only ever sees the bytes the digest names).
+// shortread(nil): 1 when the storage read returned fewer bytes than asked.
+//@ ghost map shortread(ref) int zero
+//@ func (*blobAccessCASFile).VirtualRead
+//@   props C17
+//@   at call ReadAt#1 assert the-read-asks-for-the-bytes-at-the-requested-offset: off <= MaxInt64 ==> arg2 == off
+//@   at call ReadAt#1 ghostset shortread[nil] = ite(r0 != len(arg1), 1, 0)
+//@   ensures a-short-read-from-storage-is-an-error: shortread(nil) == 1 ==> r2 != StatusOK
